@@ -109,13 +109,14 @@ class SubsetGen:
 
 
 def py_equal(a, b):
+    """'equals the value Python assigns': the same value of the same type, told apart the way a caller can - by type
+    and printed form (so 1 / 1.0 / True differ, 0.0 / -0.0 differ, nan equals nan), containers element-wise."""
     try:
-        if a == b:
-            return True
-    except Exception:
-        pass
-    try:
-        return a != a and b != b
+        if type(a) is not type(b):
+            return False
+        if isinstance(a, (list, tuple)):
+            return len(a) == len(b) and all(py_equal(x, y) for x, y in zip(a, b))
+        return repr(a) == repr(b)
     except Exception:
         return False
 
@@ -240,6 +241,19 @@ class C02(C01):
             trace["plain"] = (bool(plain.success), plain.atp.value if plain.success and plain.atp else None)
         except BaseException as e:  # noqa
             trace["plain"] = ("raised", type(e).__name__)
+        # the SECOND way into the math pathway: the legacy string API (what BioAgent uses), on an engine as shipped
+        if pw == "math" and len(expr) < 2000:
+            try:
+                text = Mitochondria(silent=True).digest_glucose(expr)
+                want = None
+                if ref[0] == "ok" and not (isinstance(val, str) and val.startswith("Metabolic Failure")):
+                    try:
+                        want = str(val)
+                    except Exception:
+                        want = None
+                trace["digest"] = (text, ref[0], want)
+            except BaseException as e:  # noqa
+                trace["digest"] = ("raised", type(e).__name__, None)
         obs.append([1 if case.get("subset") else 0])
         if case.get("subset") and pw in ("math", "logic"):
             obs.append([1, rec.I.vid(ref[1])] if ref[0] == "ok" else [0, -1])
@@ -270,6 +284,17 @@ class C02(C01):
                 if not py_equal(plain[1], ref[1]):
                     return Violation("C02/value-differs",
                                      f"engine returned {plain[1]!r} for {case['expr']!r} ({trace['pw']}), Python gives {ref[1]!r}")
+        dg = trace.get("digest")
+        if dg is not None:
+            if dg[0] == "raised":
+                return Violation("C02/raises", f"digest_glucose({case['expr']!r}) raised {dg[1]}")
+            if isinstance(dg[0], str) and not dg[0].startswith("Metabolic Failure"):
+                if dg[1] == "raises":
+                    return Violation("C02/success-where-python-raises",
+                                     f"digest_glucose returned {dg[0]!r} for {case['expr']!r} but Python raises {ref[1]}")
+                if dg[2] is not None and dg[0] != dg[2]:
+                    return Violation("C02/value-differs",
+                                     f"digest_glucose returned {dg[0]!r} for {case['expr']!r}, Python's value prints as {dg[2]!r}")
         if res.success:
             if ref[0] == "raises":
                 return Violation("C02/success-where-python-raises",
